@@ -284,6 +284,8 @@ class t2data(object):
         if value is False: value = []
         elif value is True: value = list(t2_extra_precision_sections) # (copy)
         elif isinstance(value, str): value = [value]
+        # the companion file is read in the order it is written: keep the canonical order
+        value = [section for section in t2_extra_precision_sections if section in value]
         # check if removing any extra precision sections:
         for section in set(self._extra_precision) - set(value):
             self.insert_section(section)
